@@ -47,7 +47,8 @@ def handle (stream : String) (args : List String) : String :=
         | .error e => some (showErr e)
         | .ok c =>
           let iv := if p = Profile.gcm then "-" else hex (rtpIv c.rtp.salt c.ssrc seq roc)
-          some s!"{iv} {hex (gcmNonce c.rtp.salt c.ssrc seq roc)} {hex (gcmRtcpNonce c.rtcp.salt c.ssrc idx)}").getD "bad"
+          let rks := if p = Profile.gcm then "-" else hex (S.ks c.rtcp.ck (rtcpIv c.rtcp.salt c.ssrc idx) 16)
+          some s!"{iv} {hex (gcmNonce c.rtp.salt c.ssrc seq roc)} {hex (gcmRtcpNonce c.rtcp.salt c.ssrc idx)} {rks}").getD "bad"
   | "rocrow", [roc, last] => (do some (rocRow (← roc.toNat?) (← optNat last))).getD "bad"
   | "roc1", [roc, last, seq, r] =>
     (do let roc ← roc.toNat?
